@@ -17,6 +17,7 @@ Record cfg := {
 Inductive phase :=
   | PIdle                         (* waiting for a request: new connection, keep-alive, or a partial request head *)
   | PHandling (d : option Z)      (* handler running; left alone it returns d ms after T0 (None = never) *)
+  | PReadLater (d : Z)            (* handler running; d ms after T0 it reads the (already received) body and returns *)
   | PUpload (arrive : option Z).  (* handler awaits the rest of the request body, which the peer sends arrive ms after T0 *)
 
 Inductive hres :=
@@ -39,11 +40,12 @@ Fixpoint before (a b : N) (l : list N) : bool :=
 Definition closing_at_T0 : bool := before 1 2 runner_cleanup_seq.   (* pre_shutdown before the on_shutdown signal *)
 Definition srv_present : bool := memN 3%N runner_cleanup_seq.          (* Server.shutdown(timeout) is called *)
 
-(* helpers.ceil_timeout(delay) called at `now`: no deadline for delay <= 0, deadline rounded up to a whole
-   second of loop time when delay > 5 s *)
+(* end of one wait of RequestHandler.shutdown(timeout) started at `now`: helpers.ceil_timeout rounds the deadline up
+   to a whole second of loop time when the delay exceeds 5 s; a timeout <= 0 skips the wait (repaired behaviour,
+   /repo 8d0202e; before, ceil_timeout(0) meant no deadline at all) *)
 Definition ceil1000 (w : Z) : Z := ((w + 999) / 1000) * 1000.
 Definition deadline (c : cfg) (now : Z) : option Z :=
-  if t_ms c <=? 0 then None
+  if t_ms c <=? 0 then (if nonpositive_timeout_no_wait then Some now else None)
   else let w := abs0 c + now + t_ms c in
        Some ((if ceil_threshold_ms <? t_ms c then ceil1000 w else w) - abs0 c).
 
@@ -81,24 +83,57 @@ Definition handling (c : cfg) (d : option Z) : outcome :=
     else {| closed_at := None; handler := HStuck |}
   end.
 
+(* a handler blocked on its request body; the rest of the body is delivered at T0 + arrive (None = never).
+   At the end of the first wait shutdown() poisons the request payload with CancelledError, which the
+   handler's read re-raises. *)
+Definition blocked_on_body (c : cfg) (arrive : option Z) : outcome :=
+  let starved :=
+    if srv_present then
+      match first_deadline c with
+      | None => {| closed_at := None; handler := HStuck |}
+      | Some d1 => {| closed_at := Some d1; handler := HCancelled d1 |}
+      end
+    else {| closed_at := None; handler := HStuck |} in
+  if closing_at_T0 && drops_data_when_closing then starved
+  else
+    (* the body of the request in flight is still fed while the transport is open (/repo cff98d2) *)
+    match arrive with
+    | None => starved
+    | Some a =>
+      if a <=? s_ms c then handling c (Some a)
+      else if srv_present then
+        match first_deadline c with
+        | None => handling c (Some a)
+        | Some d1 => if a <=? d1 then {| closed_at := Some a; handler := HCompleted a |}
+                     else {| closed_at := Some d1; handler := HCancelled d1 |}
+        end
+      else handling c (Some a)
+    end.
+
+(* a handler that reads its (complete) body only at T0 + d: once the payload is poisoned the read fails *)
+Definition read_later (c : cfg) (d : Z) : outcome :=
+  if d <=? s_ms c then handling c (Some d)
+  else if srv_present then
+    match first_deadline c, last_deadline c with
+    | Some d1, Some dl =>
+      if d <=? d1 then {| closed_at := Some d; handler := HCompleted d |}
+      else if d <=? dl then {| closed_at := Some d; handler := HCancelled d |}
+      else {| closed_at := Some dl; handler := HCancelled dl |}
+    | _, _ => handling c (Some d)
+    end
+  else handling c (Some d).
+
 Definition conn_outcome (c : cfg) (p : phase) : outcome :=
   match p with
   | PIdle =>
-    (* close() cancels the idle waiter; start() ends WITHOUT closing the transport; the transport is
-       closed by RequestHandler.shutdown() -> force_close() when Server.shutdown runs *)
-    {| closed_at := if srv_present then Some (s_ms c) else None; handler := HNone |}
+    (* close() cancels the idle waiter and (repaired, /repo 009879e) closes the transport at once; before, the
+       transport was only closed by RequestHandler.shutdown() -> force_close() when Server.shutdown ran *)
+    {| closed_at := if closing_at_T0 && close_closes_idle then Some 0
+                    else if srv_present then Some (s_ms c) else None;
+       handler := HNone |}
   | PHandling d => handling c d
-  | PUpload arrive =>
-    if closing_at_T0 && drops_data_when_closing
-    then (* the body bytes are dropped by data_received; at the end of the first wait shutdown() poisons the
-            request payload with CancelledError, which the handler's read re-raises *)
-      if srv_present then
-        match first_deadline c with
-        | None => {| closed_at := None; handler := HStuck |}
-        | Some d1 => {| closed_at := Some d1; handler := HCancelled d1 |}
-        end
-      else {| closed_at := None; handler := HStuck |}
-    else handling c arrive
+  | PReadLater d => read_later c d
+  | PUpload arrive => blocked_on_body c arrive
   end.
 
 (* a request the peer sends delta ms after T0 (delta > 0): is a handler started for it? *)
@@ -119,7 +154,7 @@ Definition server_shutdown_returns (c : cfg) (ps : list phase) : option Z :=
 
 (* two ceil-rounded deadlines add at most 2 s when the timeout exceeds ceil_timeout's threshold *)
 Definition slack (c : cfg) : Z := if t_ms c <=? 5000 then 0 else 2000.
-Definition bound (c : cfg) : Z := s_ms c + 2 * t_ms c + slack c.
+Definition bound (c : cfg) : Z := s_ms c + 2 * Z.max 0 (t_ms c) + slack c.
 
 
 (* closed, and the handler completed or cancelled, no later than `bound` *)
